@@ -10,7 +10,7 @@ from ..translate import namespace_rc
 
 PROP = "C13"
 # checker bits evaluated on what the implementation wrote / loaded
-PROP_BITS = (1, 2, 3, 4, 5, 6)
+PROP_BITS = (1, 2, 3, 4, 5, 6, 7)
 
 
 def sizes(tier):
@@ -97,6 +97,12 @@ def main(tier, seed):
                                    shrink=False)
             total_prop += st["prop_fail"] + st["impl_errors"]
             total_corr += st["corr_fail"]
+            ms = ser.msa_steps(steps)
+            if ms:
+                st = driver.run_stream(run, ser.MSA, ms, d, name.replace("ser_", "msa_"), "msa_case", "msa_case_code",
+                                       PROP_BITS, shard=40, shrink=False)
+                total_prop += st["prop_fail"] + st["impl_errors"]
+                total_corr += st["corr_fail"]
         rd = corp["rd"] + [ser.gen_textfile(rng) for _ in range(n["reader"])]
         st = driver.run_stream(run, ser.RD, rd, d, "reader", "rd_case", "rd_case_code", PROP_BITS, shard=60)
         total_prop += st["prop_fail"] + st["impl_errors"]
